@@ -9,12 +9,19 @@ HARNESS_BINS = ["c04"]
 
 UTF = ["é", "ß", "中", "\U0001F600", "́", "\u0085", " ", " ", "　", "Ж",
        # characters that are numeric / alphabetic / white space for Unicode but not for ASCII-minded code
-       "\u00b2", "\u00bd", "\u0663", "\uff13", "\u2167", "\u00a0", "\u2003", "\u000b"]
+       "\u00b2", "\u00bd", "\u0663", "\uff13", "\u2167", "\u00a0", "\u2003", "\u000b",
+       # generator audit 2026-10-02: form feed (ASCII white space), NUL / DEL (no class at all), BOM and zero-width space (invisible, not white space),
+       # paragraph separator and Ogham space (white space), the last scalar value, a title-case letter
+       "\u000c", "\u0000", "\u007f", "\ufeff", "\u200b", "\u2029", "\u1680", "\U0010ffff", "\u01c5"]
 # numbers at the edges of rust_decimal (96-bit magnitude, 28 decimals) and of the lexer's i32/f64 number test: arithmetic on a
 # parsed number (a product, a scale change, a conversion) must not panic whatever its magnitude
 EXTREME_NUMBERS = ["79228162514264337593543950335", "-79228162514264337593543950335", "79228162514264337593543950336",
                    "7922816251426433759354395034", "0.0000000000000000000000000001", "7.9228162514264337593543950335",
-                   "99999999999999999999999999999999999", "0.00000000000000000000000000000000001", "1e28", "1e-28", "1e400", "2147483648", "-2147483649"]
+                   "99999999999999999999999999999999999", "0.00000000000000000000000000000000001", "1e28", "1e-28", "1e400", "2147483648", "-2147483649",
+                   # rounding at the 96-bit / 28-digit limits (a 29th digit that rounds up), words of the float grammar that are no decimals, zero forms
+                   "79228162514264337593543950335.5", "7922816251426433759354395033.55", "-79228162514264337593543950335.9999", "0.99999999999999999999999999995",
+                   "9999999999999999999999999999.5", "-nan", "-infinity", "-inf", "1e+400", "1e-400", "4294967296", "18446744073709551616", "-0", "-0.000",
+                   "0" * 40 + "1", "1." + "0" * 40, "." + "0" * 27 + "1", "." + "0" * 28 + "1", "-." + "9" * 30, "5.", ".5", "-.5", "5.85", "5.849999999999999999999999999999"]
 TOKRE = re.compile(r'#[^\n]*|"[^"]*"?|;|[^\s]+')
 REPL = ["END", "MACRO", "LAYER", "PIN", "PORT", "RECT", "VERSION", "PROPERTY", "BEGINEXT", "ENDEXT", "UNITS", "ITERATE", "DO",
         "1.5", "-3", "1e3", "5.3", "zz", ";", '"abc', '"s"', "#c", "-", ".", "LIBRARY", "OBS", "VIA", "DEFAULT", "SITE", "CLASS"] + EXTREME_NUMBERS
@@ -31,8 +38,16 @@ def gen_texts(chk):
         ver = rng.choice([None, 53, 54, 55, 56, 57, 58])
         lib = gen_lib(rng, ver, "plain" if i % 2 else "mixed")
         pairs.append((gen_style(rng, lib, plain=(i % 5 == 0)), lib))
+    # the library with everything set (every construct of the reader is in every run, whatever the random libraries hold): one item per
+    # list under a plain style (sampled densely below), the wider one at version 5.4 with comments / LF / joined properties
+    mid = {("lef_lib", "vias"): 2, ("lef_macro", "pins"): 2, ("lef_macro", "obs"): 2, ("lef_macro", "density"): 2, ("lef_density_geoms", "geometries"): 2}
+    rich = [("rich_lean", Raw("(mkstyle [] [[SWs 32]] [SWs 10] None [] [] [] false true)"), rich_lib(None, wide={("lef_lib", "vias"): 2}, lean=True)),
+            ("rich_54", Raw("(mkstyle [SComment %s] [[SWs 10]; [SWs 32]; [SWs 32; SComment %s]; [SWs 9]] [SWs 10] (Some %s) [[]; [true]; [false; true]] [] [] true true)"
+                            % (cbytes(H("é header")), cbytes(H(" c 中")), cbytes(H("end")))), rich_lib(54, wide=mid))]
+    pairs += [(sty, lib) for _, sty, lib in rich]
+    n0 = len(pairs) - len(rich)
     for i, b in enumerate(render_cases(chk, pairs, "c11_render")):
-        texts.append(("gen%02d" % i, b))
+        texts.append(("gen%02d" % i if i < n0 else rich[i - n0][0], b))
     return texts
 
 def gen_cases(chk, texts):
@@ -67,13 +82,30 @@ def gen_cases(chk, texts):
               "\u00b2", "MACRO \u00b2", "VERSION \u00bd", "\u0663\u0663", "\uff13 ", "x \u00b2\u00a0", "MACRO m SIZE \u00b2 BY \uff13 ; END m",
               "\u00b2x \u00bdy\u00a0\u0663", "VERSION 5.8 ;\n\uff13",
               "\n" * 60000 + "VERSION 5.8 ;", "# c\n" * 40000 + "VERSION 5.8 ;\nMACRO m\nEND m\n", " \n\t" * 30000 + "FOO", ("#\n\n" * 30000),
+              "\ufeffVERSION 5.8 ;", "VERSION 5.8 ;\ufeff", "VERSION 5.8 ;\rMACRO m\r  SIZE 1 BY 1 ;\rEND m\r" + "# é\r" * 60 + "FOO", "VERSION\x0c5.8\x0c;\x0cFOO",
+              "\x00", "MACRO m\x00 END m\x00", 'BUSBITCHARS "[]', 'BUSBITCHARS "[', 'BUSBITCHARS "abc', 'DIVIDERCHAR "/', 'DIVIDERCHAR "ab', 'DIVIDERCHAR "', 'BUSBITCHARS "é中', 'DIVIDERCHAR "\U0001F600',
+              'MACRO m PIN a NETEXPR "x', 'BEGINEXT "t', 'BEGINEXT "t" "x', "BEGINEXT", 'PROPERTYDEFINITIONS MACRO p STRING "x', "MACRO m PROPERTY p \"v", "MACRO m PROPERTY \"p\" v ; END m",
+              "MACRO \"m\" END \"m\"", "MACRO 5 END 5", "MACRO ; END ;", "MACRO m END", "MACRO m END n", "MACRO m PIN p END q END m", "SITE s CLASS CORE ; SIZE 1 BY 1 ; END t", "VIA v END w",
+              "END", "END LIBRARY", "END LIBRARY END LIBRARY", "END MACRO", "LIBRARY", ";", "; ; ;", "VERSION ;", "VERSION 5.8", "VERSION 5.8 5.8 ;", "VERSION five ;", "VERSION \"5.8\" ;",
+              "UNITS", "UNITS END", "UNITS END LIBRARY", "UNITS DATABASE 100 ; END UNITS", "UNITS DATABASE MICRONS ; END UNITS", "PROPERTYDEFINITIONS", "PROPERTYDEFINITIONS END",
+              "PROPERTYDEFINITIONS MACRO p REAL RANGE 1 ; END PROPERTYDEFINITIONS", "PROPERTYDEFINITIONS MACRO p REAL RANGE ; END PROPERTYDEFINITIONS", "PROPERTYDEFINITIONS BOGUS p REAL ; END PROPERTYDEFINITIONS",
+              "MACRO m OBS", "MACRO m OBS LAYER", "MACRO m OBS LAYER l", "MACRO m OBS LAYER l ;", "MACRO m OBS LAYER l ; RECT", "MACRO m OBS LAYER l ; RECT MASK", "MACRO m OBS LAYER l ; RECT ITERATE 0 0 1 1 DO",
+              "MACRO m OBS LAYER l ; RECT ITERATE 0 0 1 1 DO 1 BY 1 STEP 1 ;", "MACRO m OBS LAYER l ; POLYGON ITERATE DO 1 BY 1 STEP 1 1 ; END END m", "MACRO m OBS LAYER l ; PATH 0 0 ; END END m",
+              "MACRO m OBS LAYER l ; PATH 0 ; END END m", "MACRO m OBS LAYER l ; POLYGON 0 0 1 1 2 ; END END m", "MACRO m OBS LAYER l ; VIA 0 0 ; END END m", "MACRO m OBS LAYER l ; VIA ITERATE 0 0 v DO 1 BY 1 STEP 1 1 ; END END m",
+              "MACRO m OBS LAYER l ; WIDTH ; END END m", "MACRO m OBS LAYER l SPACING ; END END m", "MACRO m OBS LAYER l EXCEPTPGNET", "MACRO m DENSITY", "MACRO m DENSITY LAYER l ; RECT 0 0 1 1 ; END END m",
+              "MACRO m PIN p PORT", "MACRO m PIN p PORT CLASS", "MACRO m PIN p DIRECTION OUTPUT TRISTATE", "MACRO m PIN p DIRECTION OUTPUT x ; END p END m", "MACRO m PIN p ANTENNAGATEAREA", "MACRO m PIN p ANTENNAGATEAREA 1 LAYER ; END p END m",
+              "MACRO m CLASS", "MACRO m CLASS ENDCAP ; END m", "MACRO m CLASS COVER x ; END m", "MACRO m FOREIGN", "MACRO m FOREIGN f 1 ; END m", "MACRO m FOREIGN f 1 2 Q ; END m", "MACRO m SYMMETRY", "MACRO m SYMMETRY Q ; END m",
+              "VIA v DEFAULT", "VIA v VIARULE", "VIA v VIARULE r ;", "VIA v RESISTANCE", "VIA v LAYER l ; RECT MASK", "VIA v LAYER l ; POLYGON 0 0 1 1 ; END v", "VIA v LAYER l ; RECT ITERATE 0 0 1 1 ; END v", "VIA v PROPERTY p 1 ; END v",
+              "SITE", "SITE s", "SITE s ROWPATTERN a N ; END s", "MAXVIASTACK 4 ;", "VIARULE r GENERATE END r", "NONDEFAULTRULE n END n", "LAYER m1 TYPE ROUTING ; END m1", "USEMINSPACING PIN ON ;", "CLEARANCEMEASURE x ;",
               "x" * 300 + " y", "é" * 250 + " y", "VERSION 5.8 ;\n" + "中" * 210 + "\nFOO", "MACRO m OBS LAYER l ; POLYGON 0 0 1 1 ; END END m"]:
         add("handpicked", s)
     # every prefix (on a character boundary)
     for name, b in texts:
         s = b.decode("utf8")
         n = len(s)
-        if quick:
+        if name == "rich_lean":
+            idx = sorted(set(rng.sample(range(n), min(n, 70)) + [e for _, e in tokens(s)] + [a + 1 for a, e in tokens(s) if e - a > 1][::3]))
+        elif quick:
             idx = sorted(set(rng.sample(range(n), min(n, 70)) + [e for _, e in tokens(s)][:: max(1, len(tokens(s)) // 25)]))
         else:
             # every prefix of the short texts; for long ones every token end plus a sample (memory: a run is held in RAM)
@@ -86,7 +118,7 @@ def gen_cases(chk, texts):
         tk = tokens(s)
         if not tk:
             continue
-        pos = rng.sample(range(len(tk)), min(len(tk), 22 if quick else 120))
+        pos = rng.sample(range(len(tk)), min(len(tk), (len(tk) if name == "rich_lean" else 22) if quick else 120))
         for i in pos:
             a, e = tk[i]
             kinds = ["delete", "duplicate", "swap", "replace"] if not quick else [rng.choice(["delete", "duplicate", "swap", "replace", "replace"])]
@@ -107,7 +139,7 @@ def gen_cases(chk, texts):
         tk = tokens(s)
         if not tk:
             continue
-        for _ in range(28 if quick else 200):
+        for _ in range((150 if name.startswith("rich") else 28) if quick else 200):
             a, e = rng.choice(tk)
             ch = rng.choice(UTF)
             where = rng.choice(["before", "after", "inside", "inside"])
@@ -132,6 +164,15 @@ def timing(chk):
         "ext_nonkeys": lambda n: 'BEGINEXT "t" ' + "wé " * (4 * n) + "ENDEXT",
         "macros": lambda n: "".join("MACRO m%d SIZE 1 BY 2 ; END m%d\n" % (i, i) for i in range(n // 2)),
         "err_late": lambda n: "MACRO m OBS LAYER l ; " + "RECT 0 0 1 1 ; " * n + "FOO",
+        # generator audit 2026-10-02: one family per loop of the parser (a loop that recurses or re-scans shows here as a crash or as super-linear time)
+        "points": lambda n: "MACRO m OBS LAYER l ; POLYGON " + "0 0 1 1 2 2 " * (n // 2) + "; END END m",
+        "props": lambda n: "MACRO m PROPERTY " + 'p 1.5 q "s" ' * n + "; END m",
+        "pins": lambda n: "MACRO m\n" + "PIN p PORT LAYER l ; END END p\n" * (n // 2) + "END m",
+        "layers": lambda n: "MACRO m OBS\n" + "LAYER l ; VIA 0 0 v ;\n" * n + "END END m",
+        "propdefs": lambda n: "PROPERTYDEFINITIONS\n" + "MACRO p REAL RANGE 0 1 0.5 ;\n" * n + "END PROPERTYDEFINITIONS",
+        "sites_vias": lambda n: "".join("SITE s CLASS CORE ; SIZE 1 BY 1 ; END s\nVIA v LAYER l ; RECT 0 0 1 1 ; END v\n" for _ in range(n // 4)),
+        "lines_then_err": lambda n: "# é comment\n\n" * (2 * n) + "FOO",
+        "err_after_long_string": lambda n: 'MACRO m PROPERTY a "' + "s\n" * (8 * n) + '" FOO',
     }
     base = 3000 if chk.tier == "quick" else 12000
     out = {}
@@ -148,6 +189,13 @@ def timing(chk):
         # growth between the two LARGEST sizes (constant overheads no longer matter there): linear time gives 4,
         # quadratic 16; the violation threshold is 8
         ratio = ns[2] / max(1, ns[1])
+        if ratio > 6:
+            # measured again before it counts (a loaded machine): the smaller growth is kept
+            rs2 = harness("c04", [dict(c, reps=5) for c in cs])
+            if all("ns" in r for r in rs2):
+                ns2 = [r["ns"] for r in rs2]
+                if ns2[2] / max(1, ns2[1]) < ratio:
+                    ns, ratio = ns2, ns2[2] / max(1, ns2[1])
         out[name] = {"bytes": bytes_, "ns": ns, "t(16n)/t(4n)": round(ratio, 2), "t(4n)/t(n)": round(ns[1] / max(1, ns[0]), 2)}
         worst = max(worst, ratio)
     return out, worst
@@ -200,7 +248,17 @@ def evaluate(chk, cases, tag, chunk=6000):
             wc = w_code(r)
             rw = "0" if wc is None else "(c11_rewrite_check %d %d)" % (wc, r2_code(r))
             items.append(pack63("(c11_check %s %s %s, %s)" % (cfg, cbytes(c["src"]), i, rw)))
-        outs = coq_eval_lists(C11_HDR, items, chk.rundir, tag, shard=120)
+        # shards of equal work: items dealt to the shards by decreasing size (the long texts would otherwise share a shard)
+        nsh = max(1, -(-len(items) // 120))
+        by_size = sorted(range(len(items)), key=lambda j: -len(items[j]))
+        buckets = [by_size[k::nsh] for k in range(nsh)]
+        shard = max(1, max(len(b) for b in buckets))
+        perm = [j for b in buckets for j in b + [None] * (shard - len(b))]
+        outs_p = coq_eval_lists(C11_HDR, [items[j] if j is not None else "(0, 0)" for j in perm], chk.rundir, tag, shard=shard)
+        outs = [None] * len(items)
+        for j, o in zip(perm, outs_p):
+            if j is not None:
+                outs[j] = o
         del items
         for o, r in zip(outs, res):
             m = re.match(r"\(\(?(-?\d+)\)?(?:%Z)?, \(?(-?\d+)\)?(?:%Z)?\)", o.strip())
@@ -210,6 +268,16 @@ def evaluate(chk, cases, tag, chunk=6000):
             codes.append(cd)
             all_res.append(slim(r, cd))
     return all_res, codes
+
+def _classes(viol):
+    """failing cases by (what the implementation did, family)"""
+    out = {}
+    for c, r, cd in viol:
+        rr = r["r"] if cd[0] == 2 else (r.get("w") if (r.get("w") or {}).get("wpanic") else r.get("r2")) or {}
+        what = next((("%s: %s" % (k, str(rr[k])[:70])) for k in ("panic", "wpanic", "crash") if k in rr), "?")
+        key = "%s | %s" % (what, c["kind"])
+        out[key] = out.get(key, 0) + 1
+    return out
 
 def run(chk, replay=None):
     # the iteration-counting copy of the parser model follows Lef/LefParse.v (C11_steps_linear proves it returns what the model returns)
@@ -247,7 +315,9 @@ def run(chk, replay=None):
     chk.cov["rule"] = ("valid LEF texts (hand-written corpus incl. the snippets of lef21's tests, plus renderings of generated libraries by the Coq "
                        "specification renderer); every/sampled prefix, single-token faults (delete, duplicate, swap, replace by keyword/number/;/unterminated string), "
                        "insertion of 1-4 byte characters (Latin, CJK, emoji, combining, U+0085, U+2028, NBSP) at token boundaries and inside names, comments, strings, "
-                       "numbers; long single lines. A case is non-trivial when the text is non-empty; distinct by bytes.")
+                       "numbers; long single lines. Since the generator audit: the library with everything set is among the texts (rich_lean: a prefix at every token end, a fault at "
+                       "every token; rich_54), the alphabet has FF / NUL / DEL / BOM / ZWSP / U+2029 / U+10FFFF, hand-picked texts end inside every construct and inside string "
+                       "literals, numbers round at the 96-bit limit. A case is non-trivial when the text is non-empty; distinct by bytes.")
     res, codes = evaluate(chk, cases, "c11")
     chk.cov["evaluations"] = len(cases)
     chk.cov["distinct_nontrivial"] = len({c["src"] for c in cases if c["src"]})
@@ -277,7 +347,8 @@ def run(chk, replay=None):
         chk.violation("LEF reader crashes (%s): %r -> %s (%d failing cases of %d; kinds %s)" % (
             what, bytes.fromhex(c["src"]).decode("utf8", "replace")[:120], json.dumps(r["r"] if cd[0] == 2 else {"w": r.get("w"), "r2": r.get("r2")})[:300],
             len(viol), len(cases), sorted({v[0]["kind"] for v in viol})[:8]),
-            {"cases": [v[0] for v in viol[:50]], "impl": [v[1]["r"] if "ok" not in v[1]["r"] else "ok" for v in viol[:50]]})
+            {"cases": [v[0] for v in viol[:50]], "impl": [v[1]["r"] if "ok" not in v[1]["r"] else "ok" for v in viol[:50]],
+             "classes": _classes(viol)})
     elif worst > 8:
         chk.violation("LEF reader time is not proportional to input length: t(16n)/t(4n) = %.1f (%s)" % (worst, json.dumps(chk.cov["timing"])[:400]),
                       {"timing": chk.cov["timing"]}, no_input=False)
